@@ -304,6 +304,63 @@ func c01Cross(chk *fw.Check) int {
 			n++
 			w.Cleanup()
 		})
+		// (3) two configured crl_urls that differ only in the query string / only in the case of the path: both lists are enforced
+		for _, pair := range [][2]string{{"http://crl.test/dist?issuer=1", "http://crl.test/dist?issuer=2"}, {"http://crl.test/CA-A.crl", "http://crl.test/ca-a.crl"}} {
+			seqWorld(func() {
+				net := world.NewNet()
+				dir, files := FreshDir("c01y"), FreshDir("c01yf")
+				defer os.RemoveAll(dir)
+				defer os.RemoveAll(files)
+				net.Serve(pair[0], "first", world.SimpleCRL(p.CA, 1, 611).DER())
+				net.Serve(pair[1], "second", world.SimpleCRL(p.CA, 2, 612).DER())
+				storage := "memory"
+				if disk {
+					storage = "disk"
+				}
+				w := NewTW(TWOpt{Mode: "crl_only", Net: net, CRL: &config.CRLConfig{WorkDir: dir, StorageType: storage, CRLUrls: []string{pair[0], pair[1]},
+					TrustedSignatureCertsFiles: []string{WritePEM(files, "ca.pem", p.CA.Cert)}}})
+				if err := w.Provision(); err != nil {
+					chk.Violation("C01|premise|provision-failed", "two similar crl_urls: "+err.Error(), nil)
+					return
+				}
+				vsched.Drain()
+				for _, serial := range []int64{611, 612} {
+					l := world.Issue(p.CA, world.CertOpt{CN: "c01 z", Serial: big.NewInt(serial), KeyKind: "ec", KeyIdx: 5})
+					if v := w.Handshake(world.Chain(l, p.CA, p.Root)); !v.Rejected() {
+						chk.Violation("C01|listed-accepted|cross=similar-configured-urls|"+be(disk), fmt.Sprintf("crl_urls %v: serial %d listed at one of them was accepted", pair, serial), nil)
+					}
+					n++
+				}
+				w.Cleanup()
+			})
+		}
+		// (4) the certificate's own CDP is unavailable (lenient), a configured file CRL lists it
+		seqWorld(func() {
+			net := world.NewNet()
+			dir, files := FreshDir("c01w"), FreshDir("c01wf")
+			defer os.RemoveAll(dir)
+			defer os.RemoveAll(files)
+			f := filepath.Join(files, "cfg.crl")
+			os.WriteFile(f, world.SimpleCRL(p.CA, 1, 621).DER(), 0644)
+			net.Down(c01CRLURL)
+			storage := "memory"
+			if disk {
+				storage = "disk"
+			}
+			w := NewTW(TWOpt{Mode: "crl_only", Net: net, CRL: &config.CRLConfig{WorkDir: dir, StorageType: storage, CRLFiles: []string{f},
+				TrustedSignatureCertsFiles: []string{WritePEM(files, "ca.pem", p.CA.Cert)}}})
+			if err := w.Provision(); err != nil {
+				chk.Violation("C01|premise|provision-failed", "cdp-down cross case: "+err.Error(), nil)
+				return
+			}
+			vsched.Drain()
+			a := world.Issue(p.CA, world.CertOpt{CN: "c01 w", Serial: big.NewInt(621), KeyKind: "ec", KeyIdx: 5, CDP: []string{c01CRLURL}})
+			if v := w.Handshake(world.Chain(a, p.CA, p.Root)); !v.Rejected() {
+				chk.Violation("C01|listed-accepted|cross=configured-file-while-own-cdp-unavailable|"+be(disk), "certificate listed in a configured crl_file was accepted because its own distribution point is unreachable (crl_cdp_strict off)", nil)
+			}
+			n++
+			w.Cleanup()
+		})
 	}
 	return n
 }
